@@ -683,4 +683,34 @@ def agentRun : AgentRow α → List (AgentOp α) → Option (AgentRow α)
 
 end
 
+/-! ### Key.MarshalAppend — the identity of a row in MultiItemMap (agent buckets and aggregator shards)
+
+  Fixed-width fields (timestamp, metric, tag count, tags: little-endian 4-byte words) are kept as numbers (their byte
+  encoding is trusted to be injective); the string-tag section is modelled byte for byte, including the quirk that the
+  strings start AT the `#stags` byte (`stagsPos := tagsPos + tagsCount*4`), overwriting it, which leaves one unused zero
+  byte at the end.  `skipEmpty` is the seeded variant C02-r5-1 (unset string tags before the last set one take no space). -/
+
+structure Marshalled where
+  ts : Nat
+  metric : Int
+  tags : List Int          -- tagsCount = tags.length
+  stagBytes : List Char    -- everything after the tags
+deriving DecidableEq, Repr
+
+def nul : Char := Char.ofNat 0
+
+/-- zero-terminated strings one after another -/
+def terminated (l : List Str) : List Char := l.flatMap (fun s => s ++ [nul])
+
+def stagSection (skipEmpty : Bool) (stags : List Str) : List Char :=
+  if (dropTrailing (fun (x : Str) => x.isEmpty) stags).isEmpty then [nul]   -- only the `#stags = 0` byte
+  else
+    terminated ((dropTrailing (fun (x : Str) => x.isEmpty) stags).filter (fun s => !(skipEmpty && s.isEmpty))) ++ [nul]
+
+def marshalKeyV (skipEmpty : Bool) (k : Key) : Marshalled :=
+  ⟨k.ts, k.metric, dropTrailing (fun x => x == 0) k.tags, stagSection skipEmpty k.stags⟩
+
+/-- Key.MarshalAppend of the tree -/
+def marshalKey (k : Key) : Marshalled := marshalKeyV false k
+
 end SH.Transfer
